@@ -182,7 +182,7 @@ def replay(path):
     o = r["origin"]
     cmd = list(o["cmd"])
     # harness executables live in /verif/build/<variant>-<treehash>/: re-point to the build of the CURRENT tree (prepare() relinked it)
-    m = re.match(r"^(.*/build/)([A-Za-z0-9_]+)-[0-9a-f]{16}/(.+)$", cmd[0])
+    m = re.match(r"^(.*/build/(?:alt-[0-9a-f]{8}/)?)([A-Za-z0-9_]+)-[0-9a-f]{16}/(.+)$", cmd[0])
     if m:
         from vf import build
         cmd[0] = os.path.join(build.build(m.group(2)), m.group(3))
